@@ -15,6 +15,34 @@ FAULT_LINES = {
 }
 
 
+# what may stand before the fault: literals and trivia whose text spans several lines (every later position depends
+# on the lexer counting their line breaks), in every spelling the lexer distinguishes
+PRELUDES = {
+    "none": "def a9 := 1\n",
+    "string-1-break": "def s9 := \"two\nlines\"\n",
+    "string-3-breaks": "def s9 := \"a\n\n  b\nc\"\nprint(s9)\n",
+    "string-interpolated": "def n9 := 2\ndef s9 := \"a {n9}\nb {n9 + 1}\"\n",
+    "docstring-toplevel": "\"\"\"Module\n\ndoc\n\"\"\"\ndef a9 := 1\n",
+    "docstring-dedented-close": "class K9\n    \"\"\"Doc of K9.\n\nMore text.\n\"\"\"\n    def f9: Int := 1\n",
+    "docstring-in-function": "def g9(x9: Int) -> Int =>\n    \"\"\"Adds one\n    to x9.\"\"\"\n    x9 + 1\n",
+    "docstring-one-line": "\"\"\"doc\"\"\"\ndef a9 := 1\n",
+    "comments-and-blanks": "# one\n\n# two\n   \ndef a9 := 1  # trailing\n\n",
+    "crlf": "def a9 := 1\r\ndef b9 := \"x\"\r\n",
+    "two-literals": "def s9 := \"a\nb\"\n\"\"\"d\n\"\"\"\ndef t9 := \"c\nd\ne\"\n",
+}
+
+
+def prelude_cases():
+    out = []
+    for pname, pre in PRELUDES.items():
+        for kind, faults in FAULT_LINES.items():
+            for fault in faults:
+                for tail in ("", "def z9 := 0\n"):
+                    first = pre.count("\n") + 1
+                    out.append((pre + fault + "\n" + tail, (first, first + fault.count("\n")), kind + "/after-" + pname, fault))
+    return out
+
+
 def inject(rng, text):
     """insert one fault line at a random top-level position; returns (new text, line number, kind)"""
     lines = text.rstrip("\n").split("\n")
@@ -90,8 +118,10 @@ def run(chk):
                 cases.append(inject(rng, t))
             except IndexError:
                 pass
+    pc = prelude_cases()
+    cases += pc
     res = sweep.transpile(chk, [c[0] for c in cases], annotate_both=False)
-    stats = {"rejected": 0, "localised": 0, "by_kind": {}}
+    stats = {"rejected": 0, "localised": 0, "by_kind": {}, "after_multi_line_literals_and_trivia": len(pc)}
     for (text, line, kind, fault), r in zip(cases, res):
         why = None
         lines = text.split("\n")
